@@ -582,4 +582,7 @@ func (ms *Modules) ClearEntryCache() {
 	ms.entryCacheMu.Lock()
 	defer ms.entryCacheMu.Unlock()
 	ms.entryCache = map[Node]*Entry{}
+	// Which submodules have been merged into which entry is a statement
+	// about the cached entries: the entries built next start without any.
+	ms.mergedSubmodule = map[string]bool{}
 }
